@@ -104,6 +104,9 @@ Viol(a, in, s, t, unforced) ==
     (IF a \in {"Update", "Force"} /\ ~(t.epoch \in {s.epoch, s.epoch + 1}) THEN {"epoch-step"} ELSE {})
     \cup (IF a \in {"Update", "Force"} /\ (started # (t.isStart /\ ~s.isStart)) THEN {"epoch-step"} ELSE {})
     \cup (IF a = "Force" /\ (t.epoch # s.epoch \/ t.cesr # s.cesr) THEN {"epoch-step"} ELSE {})
+    \* processing the start-of-epoch block ends the start: the epoch is the block's epoch (no further increase)
+    \cup (IF a = "SetProcessed" /\ (t.epoch # in.e \/ t.isStart) THEN {"epoch-step"} ELSE {})
+    \cup (IF a = "SetProcessedOther" /\ (t.epoch # s.epoch \/ t.isStart # s.isStart) THEN {"epoch-step"} ELSE {})
     \cup (IF a = "Update" /\ started /\ ~(t.cesr = in.r /\ in.r - s.trig >= min) THEN {"min-distance"} ELSE {})
     \cup (IF a = "Update" /\ started /\ ~(in.n >= MinNonce /\ (in.r > s.cesr + rpe \/ ~unforced))
           THEN {"unforced-start-early"} ELSE {})
